@@ -1,7 +1,8 @@
 """C20 — text functions (lib/text.py) and TEXT number formats.  DESIGN.md §7 C20."""
 import itertools
+import json
 import re
-from decimal import Decimal, ROUND_HALF_UP
+import sys
 from fractions import Fraction
 
 from harness import core, pyc
@@ -37,10 +38,12 @@ ASSUMPTIONS = [
     'and inf/nan are not generated',
     'TEXT: a float stands for the decimal its shortest repr shows (|k| < 10^9, j <= 6); formats restricted to the '
     'canonical grammar %* [#,]*[0,]* (.0*#*)? %* (other mixes of the five symbols are outside the model)',
+    'threads / ambient state: every family is also run on a brand-new threading.Thread and under a caller-modified '
+    'decimal context (prec 6, half-even, all traps); locale (C) and the recursion limit are left as they are',
     'FIND of an empty needle: the model follows the code (position = start_num while start_num <= LEN+1)',
 ]
 TRUSTED = ['modelled, not verified: str slicing/find/replace, re.sub, Decimal.quantize/format, float repr']
-REQUIRED_BUCKETS = ['float-as-text', 'left', 'right', 'mid', 'replace', 'find', 'substitute', 'trim', 'upper', 'lower', 'exact', 'len',
+REQUIRED_BUCKETS = ['thread', 'ambient-context', 'float-as-text', 'left', 'right', 'mid', 'replace', 'find', 'substitute', 'trim', 'upper', 'lower', 'exact', 'len',
                     'concatenate', 'amp', 'text', 'text:tie', 'left:negative', 'mid:negative', 'number-as-text',
                     'fractional-count', 'malformed']
 EXHAUSTIVE = False
@@ -323,6 +326,37 @@ def cases(tier, rng):
             yield case('text', [v, S_(f)])
         yield case('text', [v, 'e:div0'])
     yield case('text', [n_(Fraction(5, 2)), n_(0)])       # a number as format: rendered "0"
+    long_fmts = ['0.' + '0' * 25, '#,##0.' + '0' * 20 + '#' * 10, '0.' + '0' * 30 + '%']
+    long_vals = [Fraction(123456789125, 1000), Fraction(1, 8), Fraction(-987654321987125, 1000), Fraction(5, 2)]
+    for f in long_fmts:                          # more than 28 significant digits requested
+        for x in long_vals:
+            yield case('text', [n_(x), S_(f)])
+    # --- the same answers on a brand-new thread and under a caller-modified ambient decimal context: a
+    #     deterministic slice of every family, the tie-rich TEXT cases first (implementation side only)
+    ties = (Fraction(5, 2), Fraction(1, 8), Fraction(-5, 2), Fraction(285, 1000), Fraction(2675, 1000), Fraction(1, 2),
+            Fraction(1234567891, 1000), Fraction(35, 10), Fraction(1005, 1000), Fraction(0))
+    slice_ = [case('text', [n_(x), S_(f)]) for f in fmts for x in ties]
+    slice_ += [case('text', [n_(x), S_(f)]) for f in long_fmts for x in long_vals]
+    slice_ += [case('text', [n_(Fraction(5, 2)), S_('0')], via='f'), case('text', [n_(Fraction(1, 8)), S_('0.00')], via='f')]
+    for s_ in ['', 'ab A', ' a€  b ', 'aaaa']:
+        slice_ += [case('left', [S_(s_), n_(2)]), case('right', [S_(s_), n_(3)]), case('mid', [S_(s_), n_(2), n_(2)]),
+                   case('replace', [S_(s_), n_(2), n_(1), S_('x')]), case('find', [S_('a'), S_(s_), n_(2)]),
+                   case('find', [S_('a'), S_(s_), n_(0)]), case('substitute', [S_(s_), S_('aa'), S_('x')]),
+                   case('substitute', [S_(s_), S_('a'), S_('x'), n_(2)]), case('trim', [S_(s_)]),
+                   case('upper', [S_(s_)]), case('lower', [S_(s_)]), case('len', [S_(s_)]),
+                   case('exact', [S_(s_), S_('ab a')]), case('concatenate', [S_(s_), n_(Fraction(5, 2)), 'b:1']),
+                   case('amp', [S_(s_), n_(3)]), case('left', [S_(s_), n_(-1)]), case('right', [S_(s_), n_(Fraction(1, 2))]),
+                   case('trim', [S_(s_)], via='f'), case('find', [S_('a'), S_(s_)], via='f')]
+    for x in (1 / 3, 0.1 + 0.2, 1e16, 1e-5, 2.5):
+        slice_ += [case('left', [core.enc(x), n_(5)]), case('len', [core.enc(x)]),
+                   case('concatenate', [core.enc(x), S_('')]), case('amp', [core.enc(x), S_('')]),
+                   case('text', [core.enc(2.5), S_('0')])]
+    heavy = {n_(x) for x in ties[5:]}
+    for env in ('thread', 'ctx', 'thread+ctx'):
+        for c0 in slice_:
+            if env == 'thread+ctx' and c0['fn'] == 'text' and c0['args'][0] in heavy and not thorough:
+                continue              # quick tier: half of the ties in the combined environment
+            yield dict(c0, env=env)
 
 
 # ---------------------------------------------------------------------------------------------------------------
@@ -363,7 +397,49 @@ def _formula(template):
     return ctx(f)
 
 
+def _hostile_context():
+    """a caller-side decimal context the library must not depend on: 6 digits, half-even, every signal trapped"""
+    import decimal
+    return decimal.Context(prec=6, rounding=decimal.ROUND_HALF_EVEN,
+                           traps=[decimal.Inexact, decimal.Rounded, decimal.InvalidOperation, decimal.DivisionByZero,
+                                  decimal.Overflow, decimal.Underflow, decimal.Subnormal, decimal.Clamped])
+
+
+def _run_env(env, f):
+    """run f under the case's ambient environment: a brand-new thread and/or a modified ambient decimal context
+    (restored afterwards; locale and recursion limit are left alone)"""
+    import decimal
+    import threading
+    if not env:
+        return f()
+    if 'ctx' in env:
+        inner = f
+
+        def f():   # noqa
+            with decimal.localcontext(_hostile_context()):
+                return inner()
+    if 'thread' not in env:
+        return f()
+    box = {}
+
+    def run():
+        try:
+            box['r'] = f()
+        except BaseException as exc:   # noqa
+            box['e'] = exc
+    t = threading.Thread(target=run, name='c20-worker')
+    t.start()
+    t.join()
+    if 'e' in box:
+        raise box['e']
+    return box['r']
+
+
 def impl(c):
+    return _run_env(c.get('env'), lambda: _impl(c))
+
+
+def _impl(c):
     args = _pyargs(c)
     fn = c['fn']
     if fn == 'amp' or c.get('via') == 'f':
@@ -475,8 +551,8 @@ def text_oracle(x, f, out):
         return None
     s = core.dec(out)
     d = F['fz'] + F['fh'] if F['dot'] else 0
-    exact = abs(Decimal(x.numerator) / Decimal(x.denominator)) * 100 ** (F['pre'] + F['post'])
-    want = exact.quantize(Decimal(1).scaleb(-d), rounding=ROUND_HALF_UP)
+    scaled = abs(x) * 100 ** (F['pre'] + F['post']) * 10 ** d          # exact rational, in units of 10^-d
+    want = (2 * scaled.numerator + scaled.denominator) // (2 * scaled.denominator)   # nearest, ties away from zero
     body = s
     if x < 0:
         if not body.startswith('-'):
@@ -497,9 +573,9 @@ def text_oracle(x, f, out):
         return f'non-digit in {s!r}'
     if len(fp) > d or len(fp) < F['fz'] or len(ip) < F['zeros']:
         return f'digit count: {s!r}'
-    got = Decimal((ip or '0') + '.' + (fp or '0'))
+    got = int(ip or '0') * 10 ** d + int(fp.ljust(d, '0') or '0')
     if got != want:
-        return f'TEXT({x}, {f!r}) = {s!r} but the half-away rounding to {d} places is {want}'
+        return f'TEXT({x}, {f!r}) = {s!r} but the half-away rounding to {d} places is {want} units of 10^-{d}'
     return None
 
 
@@ -595,6 +671,22 @@ def oracles(results):
             msg = text_oracle(core.dec(a[0]), core.dec(a[1]), out)
             if msg:
                 yield c, msg
+    # the result may not depend on the calling thread or on the caller's ambient decimal context
+    plain = {}
+    for r in results:
+        c = r.case
+        if not c.get('env'):
+            plain[json.dumps({k: v for k, v in c.items()}, sort_keys=True)] = r.impl
+    for r in results:
+        c = r.case
+        if c.get('env'):
+            key = json.dumps({k: v for k, v in c.items() if k != 'env'}, sort_keys=True)
+            base = plain.get(key)
+            if base is None:
+                base = core.safe_impl(sys.modules[__name__], {k: v for k, v in c.items() if k != 'env'})
+            if base != r.impl:
+                yield c, (f'{c["fn"]} depends on its environment ({c["env"]}): {core.show(r.impl)} there, '
+                          f'{core.show(base)} on the importing thread with the default decimal context')
     # float arithmetic inside the formula: CONCATENATE(x,"") = x&"" and the slicing partition against x&""
     for e in ('1/3', '0.1+0.2', '1.1*1.1', '2/3*100', '1/7', '10/4', '2^0.5', '1/3*1E+20', '1/3/100000'):
         try:
@@ -635,6 +727,8 @@ def nontrivial(c):
 
 
 def bucket(c):
+    if c.get('env'):
+        return 'thread' if 'thread' in c['env'] else 'ambient-context'
     fn, a = c['fn'], c['args']
     kinds = _kinds(c)
     if fn == 'text':
